@@ -23,10 +23,13 @@ import sys
 
 from . import common as C
 from . import rfc1035
+from . import textlayer
 
 TRUSTED = [
     "names are compared as text: the model's label bytes are decoded with CPython's bytes.decode('utf-8','replace') and joined with '.'; "
-    "Utf8.decodeReplace/charCount/reencodedLen (used by the model's 253-character and re-encoding tests) are validated against CPython on every run",
+    "Utf8.decodeReplace/charCount/reencodedLen (used by the model's 253-character and re-encoding tests) are validated against CPython on every run; "
+    "the join itself is modelled too (Zc.NameText.textOfLabels, proved: its length is the model's nameLen) and compared with the str DNSIncoming returns, "
+    "and with what write_name makes of it, on the `text-reencode` stream",
     "python's recursion limit is modelled as 900 nested activations of _decode_labels_at_offset; the harness pins sys.setrecursionlimit accordingly "
     "and generates no pointer chain whose depth is within 20 of that budget",
     "sys.setprofile call/return events as the measure of activations; a bytes subclass counting slices taken inside _decode_labels_at_offset as the measure of label reads",
@@ -1727,6 +1730,8 @@ def run(ctx):
     interleave_stream(res, rng, tier, driver_ok)
     seen_logs_stream(res, tier)
     utf8_stream(res, rng, tier, driver_ok)
+    # the text layer: names the decoder returns (text, len(name)) and what write_name makes of them, against Zc.NameText
+    textlayer.reencode_stream(res, rng, tier, driver_ok, rlabel)
     guard_stream(res, driver_ok)
     res.notes.append("largest message on which the library agreed with the strict parser: %d records, %d questions; deepest agreeing pointer chain: nesting %d "
                      "(= %d hops; the strict parser allows 128); longest agreeing name in a message with compressed names: %d labels"
